@@ -194,7 +194,8 @@ def explore(res, rng, n):
             fail(res, 'J A != B', case, (J @ M).tolist())
     # non-symmetric corpus (row norms differ from column norms), default and explicit alignment vectors
     for Mc, vc in (([[1, 1], [0, 1]], None), ([[1, 1, 0], [0, 1, 0], [0, 0, 1]], None), ([[0, 0, 1], [0, 1, 1], [1, 0, 1]], [0, 1, 1]),
-                   ([[2, 0, 0], [3, 1, 0], [1, 4, 1]], None), ([[1, 5], [0, 1]], [1, 1])):
+                   ([[2, 0, 0], [3, 1, 0], [1, 4, 1]], None), ([[1, 5], [0, 1]], [1, 1]),
+                   ([[1, 1], [0, 1e-3]], None), ([[1, 1], [0, 4e-3]], [1, 0]), ([[1, 0, 1], [0, 1, 0], [0, 0, 2e-3]], None)):
         Mc = np.array(Mc, dtype=float)
         res.evaluations += 1
         res.stat('gram_schmidt_nonsymmetric_corpus')
